@@ -30,7 +30,7 @@ func TestMain(m *testing.M) { pt.Main(m, false) }
 var acceptable = map[string][]string{
 	// (the gateway's action set has no s3:DeleteObjectVersion - a policy naming it is refused as malformed - so a
 	// delete by version id is governed by s3:DeleteObject)
-	"GetObjectNullVersion": {"s3:GetObjectVersion"}, "DeleteObjectNullVersion": {"s3:DeleteObject"},
+	"GetObjectNullVersion": {"s3:GetObjectVersion"}, "HeadObjectNullVersion": {"s3:GetObjectVersion"}, "DeleteObjectNullVersion": {"s3:DeleteObject"},
 	"DeleteBucket": {"s3:DeleteBucket"}, "HeadBucket": {"s3:ListBucket"}, "ListObjects": {"s3:ListBucket"}, "ListObjectsV2": {"s3:ListBucket"},
 	"ListObjectVersions": {"s3:ListBucketVersions", "s3:ListBucket"}, "ListMultipartUploads": {"s3:ListBucketMultipartUploads"},
 	"GetBucketTagging": {"s3:GetBucketTagging"}, "PutBucketTagging": {"s3:PutBucketTagging"}, "DeleteBucketTagging": {"s3:PutBucketTagging"},
@@ -455,7 +455,7 @@ func genCase(t *rapid.T) caseA {
 		c.Spec.Op = rapid.SampledFrom(cat.Names()).Draw(t, "op")
 		if rapid.IntRange(0, 9).Draw(t, "copy_bias") == 0 {
 			// the operations whose decision is about more than one object
-			c.Spec.Op = rapid.SampledFrom([]string{"CopyObject", "UploadPartCopy", "DeleteObjects", "GetObjectNullVersion", "DeleteObjectNullVersion"}).Draw(t, "copy_op")
+			c.Spec.Op = rapid.SampledFrom([]string{"CopyObject", "UploadPartCopy", "DeleteObjects", "GetObjectNullVersion", "HeadObjectNullVersion", "DeleteObjectNullVersion"}).Draw(t, "copy_op")
 		}
 		e := cat.Lookup(c.Spec.Op)
 		if e.Level != "service" && c.Spec.Op != "GetObjectVersion" && c.Spec.Op != "DeleteObjectVersion" {
